@@ -45,7 +45,8 @@ def main():
             det += 1
         if m.get("strengthened"):
             strengthened += 1
-            notes = "missed at first; " + m["strengthened"][:220].replace("|", "\\|")
+            st = m["strengthened"] if isinstance(m["strengthened"], str) else str(m.get("strengthening", "check strengthened"))
+            notes = "missed at first; " + st[:220].replace("|", "\\|")
         if not m.get("valid_seed", True):
             notes = "(not a valid seed: demo/tests) " + notes
         out.append("| %s | %s | %s | %s | %s | %s |" % (m["name"], m["property"], need, caught, "; ".join("`%s`" % k for k in keys[:2]), notes))
